@@ -76,10 +76,16 @@ class DesignPartitions():
 
         """
         source_factors = []
-        for derived_factor in self.get_crossed_noncomplex_derived_factors():
+        def add_sources(derived_factor):
             for source_factor in derived_factor.levels[0].window.factors:
                 if source_factor not in source_factors:
                     source_factors.append(source_factor)
+                    # A within-trial derived factor as an argument is itself determined by
+                    # its own arguments, so those are sources, too
+                    if isinstance(source_factor, DerivedFactor) and not source_factor.has_complex_window:
+                        add_sources(source_factor)
+        for derived_factor in self.get_crossed_noncomplex_derived_factors():
+            add_sources(derived_factor)
         return source_factors
 
     def get_uncrossed_basic_factors(self):
